@@ -52,6 +52,8 @@ def gen_scenarios(names, path, simulate=None, limit=None):
 
 def key_c06(ev, clause):
     c = clause.split(' ')[0]
+    if ev['ev'] == 'probe':
+        return '%s|plain|bare_items_with_input_filter' % c
     shape = 'other'
     F = ev['frags']
     if 'OnePrimary' in c:
@@ -86,6 +88,8 @@ def key_c07(ev, clause):
 
 
 def what_fn(ev, clause):
+    if ev['ev'] == 'probe':
+        return '%s: %s' % (clause, json.dumps(ev))
     if ev['ev'] == 'sched':
         parts = clause.split(' ')
         sel = {p.split('=')[0]: int(p.split('=')[1]) for p in parts[1:] if '=' in p}
